@@ -46,6 +46,8 @@ fn value_grid(odd_key: bool) -> Vec<String> {
     r#"date and time("2020-01-02T03:04:05")"#, r#"date and time("2020-01-02T03:04:05Z")"#, r#"date and time("2020-01-02T03:04:05.25+01:00")"#,
     r#"duration("P1Y2M")"#, r#"duration("-P11M")"#, r#"duration("P1DT2H3M4S")"#, r#"duration("-PT0.5S")"#, r#"duration("P0D")"#];
   let mut level: Vec<String> = scalars.iter().map(|s| s.to_string()).collect();
+  // every control character U+0000..U+001F, U+007F and the two characters JSON escapes by name, each inside a string
+  for cp in (0u32..0x20).chain([0x7Fu32, 0x22, 0x5C, 0x2028]) { level.push(format!("\"x\\u{:04X}y\"", cp)); }
   let mut all: Vec<String> = level.clone();
   for _depth in 0..2 {
     let mut next: Vec<String> = vec!["[]".to_string(), "{}".to_string()];
@@ -392,6 +394,37 @@ fn main() {
         match r { Ok((e, c)) => out.push_str(&format!("{}\t{}\t{}\t{}\n", n1, n2, e, c)), Err(_) => out.push_str(&format!("{}\t{}\tPANIC\tPANIC\n", n1, n2)) }
       } }
       print!("{}", out);
+    }
+    Some("recognizedump") => {
+      // recognizedump <listfile>: each line is the path of a text drawing; prints one line per file with every field of the recognised
+      // decision table, tab separated (or ERROR / PANIC)
+      let list = std::fs::read_to_string(&args[2]).unwrap_or_default();
+      for path in list.lines().map(|l| l.trim()).filter(|l| !l.is_empty()) {
+        let text = std::fs::read_to_string(path).unwrap_or_default();
+        let r = std::panic::catch_unwind(move || match dmntk_recognizer::build(&text) {
+          Ok(dt) => {
+            let esc = |s: &str| s.replace('\\', "\\\\").replace('\t', "\\t").replace('\n', "\\n");
+            let mut f: Vec<String> = vec![];
+            f.push(format!("hp={:?}", dt.hit_policy));
+            f.push(format!("agg={:?}", dt.aggregation));
+            f.push(format!("orient={:?}", dt.preferred_orientation));
+            f.push(format!("name={}", dt.information_item_name.as_deref().map(esc).unwrap_or("-".to_string())));
+            f.push(format!("label={}", dt.output_label.as_deref().map(esc).unwrap_or("-".to_string())));
+            for c in &dt.input_clauses { f.push(format!("in={}|{}", esc(&c.input_expression), c.input_values.as_deref().map(esc).unwrap_or("-".to_string()))); }
+            for c in &dt.output_clauses { f.push(format!("out={}|{}", c.name.as_deref().map(esc).unwrap_or("-".to_string()), c.output_values.as_deref().map(esc).unwrap_or("-".to_string()))); }
+            for a in &dt.annotations { f.push(format!("ann={}", esc(&a.name))); }
+            for rule in &dt.rules {
+              f.push(format!("rule={}=>{}##{}", rule.input_entries.iter().map(|e| esc(&e.text)).collect::<Vec<String>>().join("|"),
+                rule.output_entries.iter().map(|e| esc(&e.text)).collect::<Vec<String>>().join("|"), rule.annotation_entries.iter().map(|e| esc(&e.text)).collect::<Vec<String>>().join("|")));
+            }
+            f.join("\t")
+          }
+          Err(e) => format!("ERROR {}", e),
+        });
+        use std::io::Write;
+        println!("{}", r.unwrap_or("PANIC".to_string()));
+        let _ = std::io::stdout().flush();
+      }
     }
     Some("scopes") => {
       // BOUNDED stand-in (not a proof): every stack of up to <max> contexts in which each context either binds `x` (to its
